@@ -12,9 +12,7 @@ def BInv (s : RState) : Prop := DInv s ∧ s.notifications = []
 
 theorem handleDisconnection_good {s : RState} {id : Nat} {r : Option String} (h : BInv s) :
     Good A BInv (handleDisconnection s id r) := by
-  obtain ⟨s', hs'⟩ := handleDisconnection_total s id r
-  rw [hs']
-  exact handleDisconnection_dinv h.1 h.2 hs'
+  exact handleDisconnection_good' h.1 h.2
 
 theorem drain_all_good {s : RState} (h : DInv s) :
     Good A BInv (drainNotifications { s with notifications := [] } s.notifications) := by
@@ -64,9 +62,15 @@ theorem handleDevicePayload_good {s : RState} {id : Nat} (hpf : batchHasSubscrib
         · rename_i e he; exact Good.error_of he hr2
         · rename_i s3 h3
           have q3 := Good.ok_of h3 hr2
+          have hr3 : Good A BInv (wakeTurnMoved s3) :=
+            (wakeTurnMoved_good q3.1).mono fun s' q => ⟨q.1, by rw [q.2]; exact q3.2⟩
           split
-          · exact handleDisconnection_good q3
-          · exact q3
+          · rename_i e he; exact Good.error_of he hr3
+          · rename_i s4 h4
+            have q4 := Good.ok_of h4 hr3
+            split
+            · exact handleDisconnection_good q4
+            · exact q4
 
 theorem handleLastWill_good {s : RState} {cid : String} (h : BInv s) : Good A BInv (handleLastWill s cid) := by
   unfold handleLastWill
